@@ -10,6 +10,7 @@
 #include <vector>
 
 #include "core.hpp"
+#include "hdrmacros.hpp"
 
 #include <ufw/allocator.h>
 #include <ufw/byte-buffer.h>
@@ -49,6 +50,9 @@ static inline void count_fault(Ctx *c, int64_t v, bool source) {
     else if (v == -EAGAIN) { if (source) COUNT("fault.src_eagain"); else COUNT("fault.snk_eagain"); }
     else if (v < 0) { if (source) COUNT("fault.src_hard_error"); else COUNT("fault.snk_hard_error"); }
 }
+
+// endpoints are set up either through the *_init() functions or through the header's static initialiser macros (per plan)
+static bool g_bind_with_macros = false;
 
 struct SimSource {
     Ctx *c = nullptr;
@@ -132,6 +136,7 @@ struct SimSource {
     static ssize_t chunk_cb(void *d, void *buf, size_t n) { return ((SimSource *)d)->chunk(buf, n); }
     static int octet_cb(void *d, void *out) { return ((SimSource *)d)->octet(out); }
     void bind(Source *s) {
+        if (g_bind_with_macros) { *s = octet_kind ? hm_octet_source(octet_cb, this) : hm_chunk_source(chunk_cb, this); return; }   // OCTET_SOURCE_INIT / CHUNK_SOURCE_INIT
         if (octet_kind) octet_source_init(s, octet_cb, this);
         else chunk_source_init(s, chunk_cb, this);
     }
@@ -214,6 +219,7 @@ struct SimSink {
     static ssize_t chunk_cb(void *d, const void *buf, size_t n) { return ((SimSink *)d)->chunk(buf, n); }
     static int octet_cb(void *d, unsigned char ch) { return ((SimSink *)d)->octet(ch); }
     void bind(Sink *s) {
+        if (g_bind_with_macros) { *s = octet_kind ? hm_octet_sink(octet_cb, this) : hm_chunk_sink(chunk_cb, this); return; }   // OCTET_SINK_INIT / CHUNK_SINK_INIT
         if (octet_kind) octet_sink_init(s, octet_cb, this);
         else chunk_sink_init(s, chunk_cb, this);
     }
